@@ -1,5 +1,5 @@
-From FV Require Import Common.ExtractTypes Printf.PrintIntModel Printf.PrintfModel Printf.IsoPrintf.
+From FV Require Import Common.ExtractTypes Printf.PrintIntModel Printf.PrintfModel Printf.IsoPrintf Printf.NamedArgs.
 From Coq Require Extraction.
 From Coq Require Import ExtrOcamlBasic.
 Extraction "../build/extract/printf_core.ml" types_witness run_printf print_digits print_int default_locale
-  iso_printf render in_grammar fits.
+  iso_printf render in_grammar fits named_args.
